@@ -26,6 +26,31 @@ func okOrErr(b []byte, err error) string {
 	return "ok " + hx(b)
 }
 
+// held keeps a returned slice while the same function runs again on other inputs (and other library
+// calls are made), and only then renders it: a result that is a view of memory the library reuses (a
+// pooled digest buffer, a package-level scratch array) changes under the caller's hands.
+func held(b []byte, err error, again func()) string {
+	if err != nil {
+		return "err"
+	}
+	func() {
+		defer func() { recover() }()
+		again()
+		again()
+	}()
+	pollute("held", []string{hx(b)})
+	return "ok " + hx(b)
+}
+
+// other returns a copy of b with one octet changed (same length)
+func other(b []byte) []byte {
+	c := append([]byte{}, b...)
+	if len(c) > 0 {
+		c[len(c)/2] ^= 0x5a
+	}
+	return c
+}
+
 func flag01(s string) bool {
 	switch s {
 	case "1":
@@ -46,9 +71,11 @@ func evalC19(op string, args []string) string {
 	case "utf16":
 		return okOrErr(rfc2759.ToUTF16(unhx(args[0])))
 	case "chash":
-		return "ok " + hx(rfc2759.ChallengeHash(unhx(args[0]), unhx(args[1]), unhx(args[2])))
+		return held(rfc2759.ChallengeHash(unhx(args[0]), unhx(args[1]), unhx(args[2])), nil, func() {
+			rfc2759.ChallengeHash(other(unhx(args[0])), unhx(args[1]), other(unhx(args[2])))
+		})
 	case "nthash":
-		return "ok " + hx(rfc2759.NTPasswordHash(unhx(args[0])))
+		return held(rfc2759.NTPasswordHash(unhx(args[0])), nil, func() { rfc2759.NTPasswordHash(other(unhx(args[0]))) })
 	case "ntpw":
 		u, err := rfc2759.ToUTF16(unhx(args[0]))
 		if err != nil {
@@ -56,7 +83,9 @@ func evalC19(op string, args []string) string {
 		}
 		return "ok " + hx(rfc2759.NTPasswordHash(u))
 	case "chresp":
-		return "ok " + hx(rfc2759.ChallengeResponse(unhx(args[0]), unhx(args[1])))
+		return held(rfc2759.ChallengeResponse(unhx(args[0]), unhx(args[1])), nil, func() {
+			rfc2759.ChallengeResponse(other(unhx(args[0])), other(unhx(args[1])))
+		})
 	case "descrypt":
 		return "ok " + hx(rfc2759.DESCrypt(unhx(args[0]), unhx(args[1])))
 	case "paritypad":
@@ -65,7 +94,10 @@ func evalC19(op string, args []string) string {
 		}
 		return "ok " + hx(rfc2759ParityPadDESKey(unhx(args[0])))
 	case "ntresp":
-		return okOrErr(rfc2759.GenerateNTResponse(unhx(args[0]), unhx(args[1]), unhx(args[2]), unhx(args[3])))
+		r, err := rfc2759.GenerateNTResponse(unhx(args[0]), unhx(args[1]), unhx(args[2]), unhx(args[3]))
+		return held(r, err, func() {
+			rfc2759.GenerateNTResponse(other(unhx(args[0])), unhx(args[1]), other(unhx(args[2])), unhx(args[3]))
+		})
 	case "authresp":
 		s, err := rfc2759.GenerateAuthenticatorResponse(unhx(args[0]), unhx(args[1]), unhx(args[2]), unhx(args[3]), unhx(args[4]))
 		if err != nil {
@@ -78,15 +110,26 @@ func evalC19(op string, args []string) string {
 		}
 		return "ok " + s
 	case "masterkey":
-		return "ok " + hx(rfc3079.GetMasterKey(unhx(args[0]), unhx(args[1])))
+		return held(rfc3079.GetMasterKey(unhx(args[0]), unhx(args[1])), nil, func() {
+			rfc3079.GetMasterKey(other(unhx(args[0])), other(unhx(args[1])))
+		})
 	case "startkey":
 		n, err := strconv.ParseUint(args[1], 10, 32)
 		if err != nil {
 			panic("bad uint in case line: " + args[1])
 		}
-		return okOrErr(rfc3079.GetAsymmetricStartKey(unhx(args[0]), rfc3079.KeyLength(n), flag01(args[2])))
+		r, err := rfc3079.GetAsymmetricStartKey(unhx(args[0]), rfc3079.KeyLength(n), flag01(args[2]))
+		return held(r, err, func() {
+			rfc3079.GetAsymmetricStartKey(unhx(args[0]), rfc3079.KeyLength(n), !flag01(args[2]))
+			rfc3079.GetAsymmetricStartKey(other(unhx(args[0])), rfc3079.KeyLength(n), flag01(args[2]))
+		})
 	case "makekey":
-		return okOrErr(rfc3079.MakeKey(unhx(args[0]), unhx(args[1]), flag01(args[2])))
+		r, err := rfc3079.MakeKey(unhx(args[0]), unhx(args[1]), flag01(args[2]))
+		return held(r, err, func() {
+			// (the shipped MS-CHAPv2 server example derives the receive key and then the send key)
+			rfc3079.MakeKey(unhx(args[0]), unhx(args[1]), !flag01(args[2]))
+			rfc3079.MakeKey(other(unhx(args[0])), unhx(args[1]), flag01(args[2]))
+		})
 	}
 	return "UNKNOWN-OP"
 }
